@@ -57,3 +57,9 @@ From PKOCorr Require Import PhaseCorr PhaseMonitors C05Sound PhaseMonSound.
 Theorem C11_phase_monitor_sound : forall c : pcase, pc_teardown c = false -> m11p (set_obs c (model_run c)) = true.
 Proof. exact m11p_rollout_sound. Qed.
 Print Assumptions C11_phase_monitor_sound.
+
+(** The fault-stage monitor (m11f: the dry run of some object was not accepted => the rollout pass writes nothing)
+    accepts every rollout of the model. *)
+Theorem C11_fault_monitor_sound : forall c : pcase, pc_teardown c = false -> m11f (set_obs c (model_run c)) = true.
+Proof. exact m11f_sound. Qed.
+Print Assumptions C11_fault_monitor_sound.
